@@ -210,3 +210,19 @@ CHECKS["C06"] = dict(
     level_note=E1_NOTE + " Map-iteration and scheduling nondeterminism is sampled by repetition, not enumerated.",
     parts=[dict(pkg=CORE, run="^TestC06_DeterministicExecution$", quick=150, thorough=15000, floor=10)],
 )
+MCHK = "verifharness/checks/minerchk"
+CHECKS["C22"] = dict(
+    level="exploration", engine="E1",
+    technique="stateful property-based testing on the full-chain simulator with generated reward settings, stakes and fee totals; exact accounting oracle over all node stake pools",
+    level_text="On a chain with all magic-block miners and sharders registered, generated settings / stakes / kills / fee totals are followed by payFees attempts from the generator, another miner, a stranger and with a wrong round; acceptance must be exactly generator+round, an accepted payment moves no account balance, and the reward increments over all miner and sharder stake pools add up to fees + block reward exactly when every choosable node is eligible (never more otherwise).",
+    level_note=E1_NOTE + " The 'once per round' clause is enforced by block validation (one built-in transaction of each kind per block), which is exercised by the block-generation checks, not by the contract; here a second payment in one block is not generated.",
+    parts=[dict(pkg=MCHK, run="^TestC22_FeesAndRewardsSplit$", quick=120, thorough=12000, floor=5)],
+)
+MISC = "verifharness/checks/miscchk"
+CHECKS["C17"] = dict(
+    level="exploration", engine="E1",
+    technique="model-based property-based testing on the full-chain simulator: window sums fed with observed payouts under generated faucet configurations and clocks",
+    level_text="Generated valid faucet configurations are installed through the owner's update-settings; generated pours by several clients with values in every class and timestamps crossing the individual and global reset windows run on the real chain; a window model (restart when now - start >= reset) fed with the observed balance deltas must never exceed the periodic or the global limit, and no pour may exceed the faucet balance.",
+    level_note=E1_NOTE,
+    parts=[dict(pkg=MISC, run="^TestC17_FaucetLimits$", quick=200, thorough=20000, floor=5)],
+)
